@@ -58,3 +58,32 @@ Proof.
   induction l as [|a l IH]; simpl; [reflexivity|].
   destruct (p a); simpl; rewrite IH; reflexivity.
 Qed.
+
+(* subsequence: order and contents preserved *)
+Inductive sublist {A} : list A -> list A -> Prop :=
+| sub_nil : sublist [] []
+| sub_skip x l1 l2 : sublist l1 l2 -> sublist l1 (x :: l2)
+| sub_take x l1 l2 : sublist l1 l2 -> sublist (x :: l1) (x :: l2).
+
+Lemma sublist_refl {A} (l : list A) : sublist l l.
+Proof. induction l; constructor; assumption. Qed.
+
+Lemma sublist_trans {A} (l1 l2 l3 : list A) : sublist l1 l2 -> sublist l2 l3 -> sublist l1 l3.
+Proof.
+  intros H12 H23. revert l1 H12. induction H23 as [|x l2 l3 H IH|x l2 l3 H IH]; intros l1 H12.
+  - exact H12.
+  - constructor. apply IH. exact H12.
+  - inversion H12; subst; constructor; apply IH; assumption.
+Qed.
+
+Lemma filter_sublist {A} (p : A -> bool) l : sublist (filter p l) l.
+Proof. induction l as [|x l IH]; simpl; [constructor|]. destruct (p x); constructor; exact IH. Qed.
+
+Lemma sublist_nil {A} (l : list A) : sublist [] l.
+Proof. induction l; constructor; assumption. Qed.
+
+Lemma filter_comm {A} (p q : A -> bool) l : filter p (filter q l) = filter q (filter p l).
+Proof. rewrite !filter_filter. apply filter_ext_in'. intros x _. apply Bool.andb_comm. Qed.
+
+Lemma filter_idem {A} (p : A -> bool) l : filter p (filter p l) = filter p l.
+Proof. rewrite filter_filter. apply filter_ext_in'. intros x _. destruct (p x); reflexivity. Qed.
